@@ -18,7 +18,8 @@ EXTENDS Ops
 
 LenOps == {"zip", "eq", "lt", "split", "pop_back", "pop_front", "remove", "append_ann", "prepend_ann",
            "concat_ann", "into_array", "from_array", "asref_array", "into_tuple", "from_tuple",
-           "flatten_ann", "unflatten_ann", "split_ann", "pop_ann", "map_ann", "zip_ann", "from_slice_infer"}
+           "flatten_ann", "unflatten_ann", "split_ann", "pop_ann", "map_ann", "zip_ann", "from_slice_infer",
+           "from_chunks", "from_chunks_mut", "into_chunks", "into_chunks_mut"}
 
 \* n, m: operand lengths; k: the length written in the program (annotation / const parameter)
 Accept(op, n, m, k) ==
@@ -30,6 +31,8 @@ Accept(op, n, m, k) ==
       [] op = "concat_ann" -> k = n + m
       [] op = "split_ann" -> m <= n /\ k = n - m                 \* split at m, second part annotated k
       [] op \in {"into_array", "from_array", "asref_array", "from_slice_infer"} -> k = n
+      \* slices of native arrays [T; k] <-> slices of GenericArray<T, n>: the same length
+      [] op \in {"from_chunks", "from_chunks_mut", "into_chunks", "into_chunks_mut"} -> k = n
       [] op \in {"into_tuple", "from_tuple"} -> k = n /\ k \in 1..12
       [] op = "flatten_ann" -> k = n * m
       [] op = "unflatten_ann" -> m >= 1 /\ n % m = 0 /\ k = n \div m
